@@ -54,6 +54,8 @@ def eval_case(hist, rec):
     cl += sorted({'inspect:' + o['what'] for o in hist['ops'] if o['op'] == 'inspect'})
     if hist.get('name_mode'):
         cl.append('name-mode')
+    if any(t.get('unread') for m in hist['program']['modules'] for t in m['tasks']):
+        cl.append('body-skips-a-declared-input')
     if any(s.get('session') for s in flat):
         cl.append('cross-process')
     if served:
@@ -64,6 +66,7 @@ def eval_case(hist, rec):
 
 
 def strategy():
+    gen.UNREAD_INPUTS['on'] = True   # "only those upstream tasks whose results are needed": bodies that skip inputs
     return histgen.histories(KINDS, max_ops=20, gen_kw=dict(max_modules=3, max_tasks=3, kinds=gen.KINDS_ALL), name_mode=True)
 
 
